@@ -253,7 +253,12 @@ func (c *Ctx) ndCells(st *State, x IfaceV) T {
 
 func (c *Ctx) ndLen(x IfaceV) T {
 	c.declareFun("nd_len", []Sort{SInt}, SInt)
-	return app(SInt, "nd_len", x.Ref)
+	t := app(SInt, "nd_len", x.Ref)
+	if c.inQuant == 0 && !c.declared["ndlen>=0:"+x.Ref.S] {
+		c.declared["ndlen>=0:"+x.Ref.S] = true
+		c.emit(fmt.Sprintf("(assert (>= %s 0))", t.S))
+	}
+	return t
 }
 
 func (c *Ctx) evalSelector(env *Env, x *ast.SelectorExpr) Val {
